@@ -28,7 +28,7 @@ func init() {
 				"R7: no handler of the pipeline modifies the EDNS data (OPT record, Extra section) of the request message it received (directly or through a callee): the writers read the client's EDNS size, DO bit and options from that very object.",
 			NotCovered: "that dns.Msg.Truncate really fits the size and the encoded sizes themselves; the up-to-36-byte padding " +
 				"overshoot on DoH acknowledged in a code comment (numeric, out of static reach).",
-			Rules: map[string]string{"C08-R14": "optCloner.clone resets every field of the pooled OPT record, so padding and keep-alive options of an earlier response do not reach another client (shared with C07-R1)", "C08-RC": "class rules (error chains, shadowed results, character classes, crossed arguments, pool constructors, array pools, loop completeness, loop-carried buffers, replacing setters, complete clones, Grow arithmetic, pooled-buffer escape, sorted searches, fresh decode targets, per-iteration objects, whole-message copies, codec guards) over the packages this property rests on", "C08-R13": "addEDE builds a fresh response OPT from the request's UDP size and DO bit only", "C08-R12": "the filtered response is written once and for the original request (pipeline table shared with C01-R10)", "C08-R1": "normalise-before-serialise in every wire writer", "C08-R2": "maxDNSSize over all orderings",
+			Rules: map[string]string{"C08-R15": "the simple cache leaves the cached OPT record out of a hit (hop-by-hop options of the first requester do not reach later clients)", "C08-R16": "genErrorResponse builds the server's own error answers by SetRcode alone, so normalize gives them a fresh OPT record", "C08-R14": "optCloner.clone resets every field of the pooled OPT record, so padding and keep-alive options of an earlier response do not reach another client (shared with C07-R1)", "C08-RC": "class rules (error chains, shadowed results, character classes, crossed arguments, pool constructors, array pools, loop completeness, loop-carried buffers, replacing setters, complete clones, Grow arithmetic, pooled-buffer escape, sorted searches, fresh decode targets, per-iteration objects, whole-message copies, codec guards) over the packages this property rests on", "C08-R13": "addEDE builds a fresh response OPT from the request's UDP size and DO bit only", "C08-R12": "the filtered response is written once and for the original request (pipeline table shared with C01-R10)", "C08-R1": "normalise-before-serialise in every wire writer", "C08-R2": "maxDNSSize over all orderings",
 				"C08-R3": "truncate / packWithPrefix gates", "C08-R4": "normalize decision tree and OPT fields",
 				"C08-R5": "padding / keep-alive / option filter gates", "C08-R6": "pooled OPT records are reset before reuse", "C08-R7": "no handler modifies the EDNS data of the request message"},
 		}})
@@ -36,6 +36,11 @@ func init() {
 
 func runC08(c *an.Ctx) {
 	classSweep(c, "C08")
+	// ---- R15: a hit of the simple cache does not replay the cached OPT record; R16: the server's own error responses get a fresh OPT record
+	c.Floor("C08-R15", 1)
+	c08CacheHitNoOPT(c, "C08-R15")
+	c.Floor("C08-R16", 1)
+	c08ErrorRespFresh(c, "C08-R16")
 	// ---- R14: a cloned OPT record starts from the options of its source only; nothing a writer appended to a
 	// disposed response (padding, keep-alive) survives in the pooled record (shared with C07-R1)
 	c.Floor("C08-R14", 1)
@@ -638,4 +643,93 @@ func c08AddEDE(c *an.Ctx) {
 			return ""
 		},
 	})
+}
+
+// c08ErrorRespFresh holds the table of genErrorResponse: the server's own
+// FORMERR / NOTIMP / SERVFAIL answers are built from the request by SetRcode
+// alone and carry no OPT record of their own, so that normalize creates a fresh
+// one (with only the options that may be echoed) for them.  A request's OPT
+// record put into the response is kept by normalize as it is: padding, cookies
+// and local options of the query go back on a plain transport.
+func c08ErrorRespFresh(c *an.Ctx, rule string) {
+	decide(c, rule, "dnsserver.genErrorResponse", an.DecideCfg{
+		Dom: an.Domain{},
+		OnCall: func(it *an.Interp, name string, args []an.AV) (an.AV, bool) {
+			if strings.HasSuffix(name, "dns.Msg).IsEdns0") {
+				return an.NonNil("reqopt"), true
+			}
+			return an.AV{}, false
+		},
+		Expect: func(f an.Features, o an.AOutcome) string {
+			calls := o.Calls()
+			if o.Exit != "return" || len(o.Stores()) != 0 || len(calls) != 1 || !strings.HasSuffix(calls[0], "dns.Msg).SetRcode") {
+				return "a response made by SetRcode(request, code) only, with no section filled in (calls " + strings.Join(calls, ", ") + "; stores " + strings.Join(o.Stores(), ", ") + ")"
+			}
+			return ""
+		},
+	})
+}
+
+// c08CacheHitNoOPT: the simple cache keeps the upstream's whole answer,
+// OPT record included; OPT is hop-by-hop, so a cache hit must leave it out
+// (normalize keeps the options of an OPT record that is already there, and the
+// keep-alive or padding negotiated with the first client would reach the next).
+// Every append that builds the Extra section of the message returned by
+// fromCacheItem, in the function itself or in a helper it calls, is dominated
+// by a comparison of the record's type with OPT.
+func c08CacheHitNoOPT(c *an.Ctx, rule string) {
+	const k = "dnsserver/cache.(*Middleware).fromCacheItem"
+	fn := c.Fn(k)
+	key := k + " leaves the cached OPT record out"
+	if fn == nil {
+		c.Und(rule, key, token.NoPos, "anchor not found")
+		return
+	}
+	c.Analysed(k)
+	optTested := func(b *ssa.BasicBlock) bool {
+		for _, e := range an.DominatingConds(b) {
+			if bo, ok := e.If.Cond.(*ssa.BinOp); ok {
+				for _, op := range []ssa.Value{bo.X, bo.Y} {
+					if v, isConst := an.ConstInt(op); isConst && v == 41 {
+						return true
+					}
+				}
+			}
+		}
+		return false
+	}
+	n := 0
+	bad := ""
+	var examine func(v ssa.Value, d int)
+	examine = func(v ssa.Value, d int) {
+		call, ok := v.(*ssa.Call)
+		if !ok || d > 2 {
+			return
+		}
+		if b, ok := call.Call.Value.(*ssa.Builtin); ok && b.Name() == "append" {
+			n++
+			if !optTested(call.Block()) {
+				bad = "the append at " + c.Pos(call.Pos()) + " is not behind a test of the record type against OPT"
+			}
+			return
+		}
+		if callee := an.StaticCallee(call); callee != nil && callee.Blocks != nil && c.Prog.InRepo(callee) {
+			for _, cl := range an.Calls(callee) {
+				if cv, ok := cl.(*ssa.Call); ok {
+					if b, ok := cv.Call.Value.(*ssa.Builtin); ok && b.Name() == "append" {
+						examine(cv, d+1)
+					}
+				}
+			}
+		}
+	}
+	an.Instrs(fn, func(in ssa.Instruction) {
+		if st, ok := in.(*ssa.Store); ok {
+			if typ, f, _, ok := an.FieldOf(st.Addr); ok && f == "Extra" && strings.HasSuffix(typ, "dns.Msg") {
+				examine(st.Val, 0)
+			}
+		}
+	})
+	c.Check(n > 0 && bad == "", rule, key, fn.Pos(), fmt.Sprintf("%d appends build the additional section, each behind a test of the record type against OPT", n),
+		bad+": a cache hit replays the OPT record of the first requester's answer (keep-alive, padding) to every later client")
 }
